@@ -1594,3 +1594,25 @@ benign_patch("refactor_s12_C_09", "benign/set12_C_09_apply_changes_sequence_numb
 benign_patch("refactor_s12_C_10", "benign/set12_C_10_apply_changes_explicit_wal_append_error.diff", note='DB::apply_changes (round-12 anchors, set C)')
 benign_patch("refactor_s12_C_11", "benign/set12_C_11_build_group_commit_batch_skip_and_match.diff", note='DB::build_group_commit_batch (round-12 anchors, set C)')
 benign_patch("refactor_s12_C_12", "benign/set12_C_12_write_snapshot_enumerate_compaction_pointers.diff", note='VersionSet::write_snapshot (round-12 anchors, set C)')
+
+# ---- round 12: benign sets E (closures in front of closures; #03 and #06 are known false alarms, see DESIGN 11.6) and F
+benign_patch("refactor_s12_E_01", "benign/set12_E_01_get_snapshot_map_or_else.diff", note='DB::get (src/db.rs) (a new closure in front of an existing one, set E)')
+benign_patch("refactor_s12_E_02", "benign/set12_E_02_apply_changes_group_commit_result_then.diff", note='DB::apply_changes (src/db.rs) (a new closure in front of an existing one, set E)')
+benign_patch("refactor_s12_E_04", "benign/set12_E_04_new_iterator_immutable_memtable_iter_map.diff", note='DB::new_iterator (src/db.rs) (a new closure in front of an existing one, set E)')
+benign_patch("refactor_s12_E_05", "benign/set12_E_05_remove_obsolete_files_is_being_compacted_is_some_and.diff", note='DB::remove_obsolete_files (src/db.rs) (a new closure in front of an existing one, set E)')
+benign_patch("refactor_s12_E_07", "benign/set12_E_07_compact_tables_smallest_snapshot_then_unwrap_or_else.diff", note='CompactionWorker::compact_tables (src/compaction/worker.rs) (a new closure in front of an existing one, set E)')
+benign_patch("refactor_s12_E_08", "benign/set12_E_08_persist_changes_manifest_file_map_clone.diff", note='VersionSet::persist_changes (src/versioning/version_set.rs) (a new closure in front of an existing one, set E)')
+benign_patch("refactor_s12_E_09", "benign/set12_E_09_version_builder_apply_changes_compaction_pointers_filter_for_each.diff", note='VersionBuilder::apply_changes (src/versioning/version_builder.rs) (a new closure in front of an existing one, set E)')
+benign_patch("refactor_s12_E_10", "benign/set12_E_10_table_builder_add_entry_is_accepting_entries_helper_closure.diff", note='TableBuilder::add_entry (src/tables/table_builder.rs) (a new closure in front of an existing one, set E)')
+benign_patch("refactor_s12_F_01", "benign/set12_F_01_append_cmp_min.diff", note='LogWriter::append (src/logs.rs) (older anchors, set F)')
+benign_patch("refactor_s12_F_02", "benign/set12_F_02_emit_block_named_serialized.diff", note='LogWriter::emit_block (src/logs.rs) (older anchors, set F)')
+benign_patch("refactor_s12_F_03", "benign/set12_F_03_finalize_extract_write_footer.diff", note='TableBuilder::finalize (src/tables/table_builder.rs) (older anchors, set F)')
+benign_patch("refactor_s12_F_04", "benign/set12_F_04_write_block_named_threshold_swapped_cmp.diff", note='TableBuilder::write_block (src/tables/table_builder.rs) (older anchors, set F)')
+benign_patch("refactor_s12_F_05", "benign/set12_F_05_table_open_footer_offset_temp.diff", note='Table::open (src/tables/table.rs) (older anchors, set F)')
+benign_patch("refactor_s12_F_06", "benign/set12_F_06_table_get_filter_if_let.diff", note='Table::get (src/tables/table.rs) (older anchors, set F)')
+benign_patch("refactor_s12_F_07", "benign/set12_F_07_key_may_match_inverted_branches_named_filter.diff", note='FilterBlockReader::key_may_match (src/tables/filter_block.rs) (older anchors, set F)')
+benign_patch("refactor_s12_F_08", "benign/set12_F_08_pick_compaction_pointer_match.diff", note='VersionSet::pick_compaction (src/versioning/version_set.rs) (older anchors, set F)')
+benign_patch("refactor_s12_F_09", "benign/set12_F_09_pick_level_loop_break_named_levels.diff", note='Version::pick_level_for_memtable_output (src/versioning/version.rs) (older anchors, set F)')
+benign_patch("refactor_s12_F_10", "benign/set12_F_10_build_group_commit_batch_first_batch_match.diff", note='DB::build_group_commit_batch (src/db.rs) (older anchors, set F)')
+mut("smallest_snapshot_then_else_takes_newest", ["C03", "C07"], "ORD-7|compaction::worker::CompactionWorker::compact_tables", patch="smallest_snapshot_then_else_takes_newest.diff",
+    note="`snapshots.is_empty().then(|| last).unwrap_or_else(|| newest)`: the newest snapshot for the oldest one in the combinator form (wrong twin of benign set E #07)")
